@@ -79,6 +79,7 @@ void pmc_run(const char* config) {
     mv_init(); mvp::use_fast_stacks(true);
     mv_on_deadlock = on_deadlock;
     mv_time_deviations(strstr(extra, "tdev") != nullptr);
+    mv_tso(strstr(extra, "tso") != nullptr); mv_switch_points(0);     // built with -DPHOTON_VERIF for the TSC hook only
     st.prog.run(body);
     pmc_obs("%s %s", st.prog.results().c_str(), st.log.c_str());
     mv_fini(); G = nullptr;
@@ -97,6 +98,8 @@ static const PmcConfig CFG[] = {
     {"pS2pS1,pS1,ppi0pi0", 3, {0,0}, {0,0}, {0,0}, {0,0}, "one vCPU, every arrival order of sleeps and interrupts"},
     {"yS3|H0",           3, {1,2}, {0,0}, {0,0}, {0,0}, "shutdown before the sleep: capped at 10 ms, EPERM"},
     {"S2yS2|i0|j0",      2, {1,2}, {0,0}, {0,0}, {0,0}, "three vCPUs"},
+    {"S9|i0:tso",        3, {1,2}, {0,0}, {1,1}, {2,3}, "x86-TSO store buffers: cross-vCPU interrupt"},
+    {"S2,i0|j0:tso",     3, {1,1}, {0,0}, {1,1}, {2,2}, ""},
 };
 const PmcConfig* pmc_configs(int* n) { *n = sizeof CFG / sizeof CFG[0]; return CFG; }
 const char* pmc_property(void) { return "C04"; }
